@@ -4,6 +4,7 @@ import (
 	"fmt"
 	"math/big"
 	"math/rand"
+	"strconv"
 	"strings"
 )
 
@@ -233,8 +234,8 @@ var wfIDs = []V{Int(1), Int(0), Int(-5), Str("abc"), Str(""), Num("9007199254740
 func mkCase(reg *Registry, label string, id V, b baseReq, tags ...string) Case {
 	e := expectFor(reg, b.method, b.params)
 	wf := id.K == 's' || within53(id.N)
-	if wf {
-		e.HasID, e.ID = true, id
+	if wf || (id.K == 'n' && float64Holds(id.N)) {
+		e.HasID, e.ID = true, id // numbers beyond 2^53 and fractions: judged as number values (oracle.go idEqual)
 	}
 	return Case{Label: label, Body: []byte(env(id, b.method, b.params).Raw()), Exp: e, WF: wf, Common: isCommon(b.method), Tags: append([]string{"class:" + e.Class}, tags...)}
 }
@@ -330,6 +331,9 @@ func envelopeExpect(reg *Registry, v V) (Expect, bool) {
 		} else if e.Class != "free" {
 			// an id that is neither a string nor an integer: refusing and serving are both defensible
 			e = Expect{Class: "lenient", Cause: "id-kind", Method: mname, Req: true}
+			if id.K == 'n' && float64Holds(id.N) {
+				e.HasID, e.ID = true, id // …but an answer must carry the request's id as a number value
+			}
 		}
 		return e, exact && idWF && !hasRes && !hasErr && onlyEnvelopeMembers(v)
 	case mname != "" && hasID: // id null
@@ -403,6 +407,40 @@ func within53(n string) bool {
 	}
 	v, ok := new(big.Int).SetString(m, 10)
 	return ok && v.CmpAbs(new(big.Int).Lsh(big.NewInt(1), 53)) <= 0
+}
+
+// float64Holds: the literal is within the float64 range (Go decodes it)
+func float64Holds(n string) bool {
+	_, err := strconv.ParseFloat(n, 64)
+	return err == nil
+}
+
+// IdEdgeCases: numeric ids at every edge — ±2^53 and its neighbours, the int64 and uint64 edges, powers of ten beyond,
+// fractions, exponent spellings, minus zero — on requests answered with a result, with a protocol error and with a
+// handler error. A response carries "the request's id": the same number value (the float64 nearest beyond 2^53).
+func IdEdgeCases(reg *Registry) []Case {
+	ids := []string{"9007199254740991", "9007199254740992", "-9007199254740992", "9007199254740993", "-9007199254740993", "9007199254740994",
+		"9223372036854775807", "9223372036854775808", "9223372036854775809", "-9223372036854775807", "-9223372036854775808", "-9223372036854775809",
+		"9223372036854774784", "9223372036854777856", "18446744073709551615", "18446744073709551616", "18446744073709551617", "1e19", "1e30", "-1e30",
+		"123456789012345678901234567890", "1.5", "-2.25", "0.5e1", "12.0", "1E2", "-0", "-0.0", "0.0", "1e-2", "1.7976931348623157e308"}
+	reqs := []baseReq{{"ping", "ping", nil}, {"unknown-method", "verif/nope", nil}}
+	if reg.tool("boom") != nil {
+		reqs = append(reqs, baseReq{"tools/call:boom", "tools/call", vp(Obj(F("name", Str("boom"))))})
+	}
+	if reg.tool("echo") != nil {
+		reqs = append(reqs, baseReq{"tools/call:echo", "tools/call", vp(Obj(F("name", Str("echo")), F("arguments", Obj(F("x", Int(1))))))})
+	}
+	var cs []Case
+	for _, n := range ids {
+		for _, b := range reqs {
+			c := mkCase(reg, "id-edge:"+n+":"+b.label, Num(n), b, "id-edge")
+			if !isIntegral(n) || !within53(n) {
+				c.WF = false
+			}
+			cs = append(cs, c)
+		}
+	}
+	return cs
 }
 
 func isIntegral(n string) bool {
